@@ -15,7 +15,9 @@ CLAIMED = {
    text='Unbounded proof that ShuffleRepeatBatchView.__init__ computes the documented step count (ceil/floor/min/None, stated '
         'without division) and that the real refill loop of __iter__ emits exactly num_steps batches of exactly batch_size rows '
         'whose index stream is (completed windows, each a permutation of 0..N-1 and each freshly shuffled) ++ (a prefix of the '
-        'current buffer); skip_shuffle gives the cyclic order; the generator state is created per iteration from the seed.',
+        'current buffer); skip_shuffle gives the cyclic order; the generator state is created per iteration from the seed; '
+        'the public entry point ClientDataset.shuffle_repeat_batch hands the view hparams with every keyword override applied '
+        '(None-valued and falsy ones included).',
    note='Trusted: RandomState(seed) deterministic, shuffle returns a permutation (uninterpreted SHUF), numpy arange/zeros/slice '
         'contracts, abstract IsPerm/InRange predicates with stated axioms; the two corollaries (coverage after ceil(N/B) batches, '
         'usage counts differ by <= 1) are consequences of the window obligation, not separate obligations.'),
@@ -42,9 +44,11 @@ CLAIMED = {
    text='Unbounded proof that UniformGetClientSampler.sample returns, at round r, exactly choice(RandomState(lehmer(seed, r)), '
         'all ids, n) with the datasets of those ids and keys split(PRNGKey(r), n)[i] — terms over (seed, r) only — advances only the '
         'round counter (no cached generator, id list never mutated, no global numpy RNG), that set_round_num seats it, and that the '
-        'streaming sampler keeps position = round * cohort so a sampler started at r replays rounds r, r+1, ... of one started at 0.',
+        'streaming sampler keeps position = round * cohort so a sampler started at r replays rounds r, r+1, ... of one started at 0; '
+        'the id list is the enumeration order of the dataset (set() of a symbolic sequence is modelled as an arbitrary, hash-seed dependent order).',
    note='Trusted: numpy RandomState/choice and jax PRNGKey/split are deterministic (uninterpreted); choice(replace=False) distinct; '
-        'primality of 2^31-1 for the seed-range remark. Not covered: pairwise distinct keys differing between rounds (PRNG property).'),
+        'primality of 2^31-1 for the seed-range remark. Restart in a fresh process (different PYTHONHASHSEED): bounded native check. '
+        'Not covered: pairwise distinct keys differing between rounds (PRNG property).'),
  'C09': dict(
    text='Proof over a ghost file-system model of the checkpoint directory: a crash invariant (no name matching checkpoint_[0-9]{8} is '
         'ever visible with partial content) is obliged after EVERY file-system effect of the real save_state / save_checkpoint; the '
@@ -59,7 +63,9 @@ CLAIMED = {
    text='Proof over a ghost cache directory with per-call fault flags: after every effect of the real maybe_download / '
         'maybe_lzma_decompress (open, each block write, rename, copy) and on every exceptional exit, a non-.partial path exists only '
         'with the complete payload; the block loop invariant written = min(k*block, len) gives completeness at the rename for every '
-        'payload length; a complete cached file is reused without any network call; validate_file returns iff size and sha256 match.',
+        'payload length; a complete cached file is reused without any network call; from every crash-reachable cache state (a stale '
+        '.partial of any length included) a call that meets no new I/O error returns the complete file (dl.repair / xz.repair; '
+        'exclusive-create open and os.remove are modelled); validate_file returns iff size and sha256 match.',
    note='Trusted: open("wb") truncates, write appends or raises, os.rename atomic, raw.read(b) returns min(b, remaining) or raises, '
         'content-length equals the payload size, copyfileobj copies all or raises. Not covered: concurrent callers; '
         'cifar100.load_split building its SQLite file in place.'),
@@ -165,10 +171,12 @@ CLAIMED = {
         'on-grid / zero vectors hold for EVERY u), expectations by the rule E[where(u > t, a, b)] = a(1-c) + bc; reals with an '
         'explicit NaN flag for 0/0; separate float32 (z3/cvc5 FP theory) obligations for NaN/Inf freedom; DRIVE scale; leaf '
         'loops of the *_pytree functions by invariants (leaf j uses split(rng, n)[j]); the four aggregators: aggregate is '
-        'tree_mean of (quantize(params_i, i-th round key), weight_i), bit formula, key plumbing (state key on the split[0] spine).',
+        'tree_mean of (quantize(params_i, i-th round key), weight_i), bit formula, key plumbing (state key on the split[0] spine); '
+        'every accumulator an aggregator mutates is created inside the call (frame obligations), so the bit count of a round '
+        'depends on that round only.',
    note='Trusted: LEM-UNIF, definitions of the reductions, IEEE-754 RNE for float32 (XLA CPU flushes subnormals), |values| <= 2^100 '
-        "for fp.usq.finite. Known finding D-11b: range overflow gives NaN. Not covered: arithmetic-coding bit counts, "
-        'statistical independence (bounded native sampling).'),
+        "for fp.usq.finite. Known finding D-11b: range overflow gives NaN. Arithmetic-coding bit counts: bounded native check only "
+        "(mean code length over the round's clients), not proved. Not covered: statistical independence (bounded native sampling)."),
  'C02': dict(
    text='Client programs are uninterpreted (INIT, STEP, FINAL); FOLD/RES are the spec. jit and debug backends and the '
         'for_each_client wrapper: nested loop invariants (state = FOLD(c, k), owned; k step results; one tuple per client in order) '
